@@ -95,6 +95,18 @@ def build_calls(quick):
         add("simplify", s, 1)
         add("normalize", s, 1)
         add("simplify_typed", s)
+    # twins that are EQUAL under Expr.__eq__ / __hash__ (which fold the case of most string args and ignore comments) but differ as
+    # text: a memo keyed by expressions would hand one twin the other's answer, depending on which came first (forward vs reverse)
+    kinds = {"json_key": ("j -> '{k}'", "postgres"), "json_key2": ("j ->> '{k}'", "postgres"), "udt": ("CAST(x AS {k})", ""), "collate": ("s COLLATE {k}", ""),
+             "param": ("@{k}", ""), "placeholder": (":{k}", ""), "var_unit": ("DATE_TRUNC({k}, d)", ""), "dot": ("t.{k}", ""), "func": ("{k}(x)", ""),
+             "comment": ("x /* {k} */", "")}
+    spellings = [("ID", "batch"), ("id", "batch"), ("Id", "Batch"), ("iD", "BATCH")]
+    for kn, (tmpl, d) in kinds.items():
+        for k1, k2 in spellings:
+            e1, e2 = tmpl.format(k=k1), tmpl.format(k=k2)
+            for cond in (f"{e1} = 7 AND {e2} = 1", f"{e2} = 1 AND {e1} = 7", f"{e1} = 7 OR {e2} = 1 OR {e1} = 8", f"{e1} = {e2} AND {e2} = 1"):
+                add("simplify_d", cond, d)
+                add("optimize", f"SELECT a FROM x WHERE {cond.replace('j ->', 'x.a ->').replace('t.', 'x.')}", d, "opt")
     for r in relations(2)[::(4 if quick else 1)]:
         sql = render_cte(r)
         for name, _ in r.cols:
